@@ -41,22 +41,30 @@ func main() {
 	if out, err := cmd.CombinedOutput(); err != nil {
 		fail(fmt.Errorf("rsync: %v: %s", err, out))
 	}
-	dir := filepath.Join(dst, "encoding", "osm")
-	files, _ := filepath.Glob(filepath.Join(dir, "*.go"))
 	total := 0
-	for _, f := range files {
-		base := filepath.Base(f)
-		if strings.HasSuffix(base, "_test.go") || base == "sim_on.go" || base == "sim_off.go" {
-			continue
+	// encoding/osm: lock announcements and statement-level yields;
+	// route: statement-level yields only (the package has no locks and no
+	// generic lock hook)
+	for _, pkg := range []struct {
+		dir   string
+		locks bool
+	}{{filepath.Join("encoding", "osm"), true}, {"route", false}} {
+		announceLocks = pkg.locks
+		files, _ := filepath.Glob(filepath.Join(dst, pkg.dir, "*.go"))
+		for _, f := range files {
+			base := filepath.Base(f)
+			if strings.HasSuffix(base, "_test.go") || base == "sim_on.go" || base == "sim_off.go" {
+				continue
+			}
+			n, err := fill(f)
+			if err != nil {
+				fail(fmt.Errorf("%s: %v", f, err))
+			}
+			if n > 0 {
+				fmt.Printf("hookfill: %s: %d unannounced lock acquisition(s) announced\n", base, n)
+			}
+			total += n
 		}
-		n, err := fill(f)
-		if err != nil {
-			fail(fmt.Errorf("%s: %v", f, err))
-		}
-		if n > 0 {
-			fmt.Printf("hookfill: %s: %d unannounced lock acquisition(s) announced\n", base, n)
-		}
-		total += n
 	}
 	fmt.Printf("hookfill: %d announcement(s) inserted\n", total)
 	fmt.Printf("hookfill: %d statement-level yield points inserted\n", yieldsInserted)
@@ -104,6 +112,7 @@ func lockCall(s ast.Stmt) (ast.Expr, bool, bool) {
 	return nil, false, false
 }
 
+var announceLocks = true
 var yields = true
 var yieldsInserted int
 
@@ -145,7 +154,7 @@ func fill(path string) (int, error) {
 					yieldsInserted++
 				}
 			}
-			if x, write, ok := lockCall(s); ok {
+			if x, write, ok := lockCall(s); ok && announceLocks {
 				if i == 0 || !isAnnouncement(list[i-1]) {
 					w := "false"
 					if write {
